@@ -203,7 +203,7 @@ func run(c *core.Ctx) {
 	}
 	// two insertions for a few foldings
 	r2 := c.Rng("two")
-	for i := 0; i < c.N(20000, 400000)/c.NShards; i++ {
+	for i := 0; i < c.N(100000, 2000000)/c.NShards; i++ {
 		f := folding(r2.Intn(1024))
 		p1, p2 := r2.Intn(len(f)+1), r2.Intn(len(f)+1)
 		if p1 > p2 {
@@ -233,7 +233,7 @@ func run(c *core.Ctx) {
 	c.SetExhaustive("all strings up to length 4 over the 14-symbol URL alphabet")
 	// seeded soups
 	r3 := c.Rng("soup")
-	for i := 0; i < c.N(60000, 1500000)/c.NShards; i++ {
+	for i := 0; i < c.N(600000, 6000000)/c.NShards; i++ {
 		var s string
 		switch r3.Intn(4) {
 		case 0:
